@@ -14,7 +14,7 @@ TIMEOUT = {'quick': 1200, 'thorough': 7200}
 MUST_HIT = ['NonInterference.observe-others', 'FreshLoader.compare', 'IdentitySweep.pairs',
             'Mutation.new', 'Mutation.delete', 'Mutation.setattr', 'Mutation.relate', 'Mutation.unrelate',
             'Mutation.append_attribute', 'Mutation.insert_attribute', 'Mutation.delete_attribute',
-            'Mutation.define_unique_identifier', 'Mutation.define_class']
+            'Mutation.define_unique_identifier', 'Mutation.define_class', 'History.late-create-table']
 MUST_REACH = ['xtuml/load.py:ModelLoader.build_metamodel', 'xtuml/load.py:ModelLoader.populate_classes',
               'xtuml/load.py:ModelLoader.populate_associations', 'xtuml/meta.py:MetaClass.append_attribute',
               'xtuml/meta.py:MetaClass.insert_attribute', 'xtuml/meta.py:MetaClass.delete_attribute',
@@ -183,6 +183,9 @@ def mutate(ctx, rng, m):
     return (k, mc.kind)
 
 
+STATS = {}
+
+
 def fragments(rng):
     schema = sqlgen.random_schema(rng, hostile_names=rng.random() < 0.3, max_classes=4, max_attrs=4)
     pop, _ = sqlgen.resolved_population(rng, schema, max_inst=4)
@@ -190,13 +193,22 @@ def fragments(rng):
     rows = [t for _, _, t in sqlgen.insert_statements(schema, pop, rng, named=True)]
     # some classes come without CREATE TABLE: the loader infers them from their rows on every build
     used = set(r.src for r in schema.rops) | set(r.tgt for r in schema.rops) | set(u[0] for u in schema.uniques)
+    late = []
     for kind, attrs in schema.classes:
         if kind not in used and attrs and pop.rows[kind] and rng.random() < 0.6:
-            stmts = [t for t in stmts if not t.startswith('CREATE TABLE %s (' % kind)]
+            mine = [t for t in stmts if t.startswith('CREATE TABLE %s (' % kind)]
+            stmts = [t for t in stmts if t not in mine]
+            if rng.random() < 0.5:
+                # ... or their CREATE TABLE arrives with a later input, after rows (and builds) that
+                # had to do without it
+                late.extend(mine)
+                STATS['late-create-table'] = STATS.get('late-create-table', 0) + 1
     rng.shuffle(rows)
     # the schema goes first so that most builds succeed; the rows are spread over later inputs
     n = rng.randint(1, 4)
     parts = [list(stmts)] + [[] for _ in range(n)]
+    for t in late:
+        parts[rng.randint(1, n)].append(t)
     for r in rows:
         parts[rng.randint(0, n)].append(r)
     return ['\n'.join(p) + '\n' for p in parts]
@@ -283,3 +295,5 @@ def run(ctx):
         else:
             ctx.case(('h', tuple(map(str, log))), bool(what), sample=dict(history=log[:12]))
             ctx.count('histories')
+    for k, v in STATS.items():
+        ctx.hit('History.' + k, v)
